@@ -1,6 +1,119 @@
-//! lll operations (stub; filled in by the area owner).
+//! C20: LLL (number-theory-linear/src/lll.rs), Cholesky / short vectors (cholesky.rs),
+//! roots-of-unity count (src/class/roots_of_unity.rs).
+//! Every f64 is printed as the exact rational it denotes (from its bits), so that the comparison
+//! with the binary64 model is bit-exact up to the sign of zero.
 use crate::term::*;
+use num::{BigInt, BigRational, One, ToPrimitive};
+use number_theory_linear::cholesky::Cholesky;
+use rust_number_theory::algebraic::Algebraic;
+use rust_number_theory::class::roots_of_unity::find_muk;
+use rust_number_theory::embeddings::CEmbeddings;
+use rust_number_theory::integral_basis::find_integral_basis;
+use rust_number_theory::numerical_roots::find_roots_reim;
+use rust_number_theory::polynomial::Polynomial;
+use rust_number_theory::verif_hooks;
 
-pub fn dispatch(_op: &str, _a: &[Term]) -> Option<Term> {
-    None
+/// exact value of a double: nan | inf | ninf | INT | INT/INT
+pub fn tf(x: f64) -> Term {
+    if x.is_nan() {
+        return tid("nan");
+    }
+    if x.is_infinite() {
+        return tid(if x > 0.0 { "inf" } else { "ninf" });
+    }
+    let bits = x.to_bits();
+    let neg = (bits >> 63) != 0;
+    let e = ((bits >> 52) & 0x7ff) as i64;
+    let frac = bits & ((1u64 << 52) - 1);
+    let (m, ex) = if e == 0 { (frac, -1074i64) } else { (frac | (1u64 << 52), e - 1075) };
+    let mut num = BigInt::from(m);
+    if neg {
+        num = -num;
+    }
+    let r = if ex >= 0 {
+        BigRational::from_integer(num << (ex as usize))
+    } else {
+        BigRational::new(num, BigInt::one() << ((-ex) as usize))
+    };
+    tr(&r)
+}
+fn tfs(v: &[f64]) -> Term {
+    tl(v.iter().map(|&x| tf(x)).collect())
+}
+fn tfmat(m: &[Vec<f64>]) -> Term {
+    tl(m.iter().map(|r| tfs(r)).collect())
+}
+/// integer-valued input entries as f64, the way a caller would write `x as f64`; a dyadic rational
+/// num/2^e with |num| < 2^53 is the exact quotient of two exactly representable doubles
+fn fentry(x: &Term) -> f64 {
+    let r = x.rat();
+    if r.denom().is_one() {
+        r.numer().to_f64().unwrap()
+    } else {
+        r.numer().to_f64().unwrap() / r.denom().to_f64().unwrap()
+    }
+}
+fn fmat(t: &Term) -> Vec<Vec<f64>> {
+    t.list().iter().map(|r| r.list().iter().map(fentry).collect()).collect()
+}
+
+pub fn dispatch(op: &str, a: &[Term]) -> Option<Term> {
+    Some(match op {
+        // lll B -> [B' H]
+        "lll" => {
+            let b = fmat(&a[0]);
+            let (l, h) = number_theory_linear::lll(&b);
+            tl(vec![tfmat(&l), timat(&h)])
+        }
+        // cholesky_find Q -> q   (the private field is only visible through Debug)
+        "cholesky_find" => {
+            let q = fmat(&a[0]);
+            let cho = Cholesky::find(&q);
+            let n = q.len();
+            // recover q from find_value on unit vectors is not possible bit-exactly; parse the Debug form
+            let s = format!("{cho:?}");
+            let inner = s.trim_start_matches("Cholesky { q: ").trim_end_matches(" }");
+            let mut rows: Vec<Vec<f64>> = vec![];
+            for r in inner.trim_start_matches('[').trim_end_matches(']').split("], [") {
+                let r = r.trim_start_matches('[').trim_end_matches(']');
+                if r.is_empty() {
+                    continue;
+                }
+                rows.push(r.split(", ").map(|x| x.parse::<f64>().unwrap_or_else(|_| panic!("harness: float {x}"))).collect());
+            }
+            if rows.len() != n {
+                panic!("harness: cannot parse {s}");
+            }
+            tfmat(&rows)
+        }
+        // find_value Q x -> value
+        "find_value" => {
+            let q = fmat(&a[0]);
+            let x: Vec<f64> = a[1].list().iter().map(|t| t.rat().to_f64().unwrap()).collect();
+            tf(Cholesky::find(&q).find_value(&x))
+        }
+        // short_vectors Q cnum cexp -> [[value x]*]   with c = cnum / 2^cexp
+        "short_vectors" => {
+            let q = fmat(&a[0]);
+            let c = a[1].int().to_f64().unwrap() / (BigInt::one() << a[2].usize()).to_f64().unwrap();
+            let v = Cholesky::find(&q).find_short_vectors(c);
+            tl(v.into_iter().map(|(val, x)| tl(vec![tf(val), tl(x.into_iter().map(ti).collect())])).collect())
+        }
+        // find_muk f seed -> count   (f = defining polynomial, lowest degree first)
+        "find_muk" => {
+            let poly_vec = a[0].ints();
+            verif_hooks::install(a[1].u64(), vec![]);
+            let poly = Polynomial::from_raw(poly_vec.clone());
+            let poly_complex = Polynomial::from_raw(poly_vec.iter().map(|b| b.to_f64().unwrap()).collect());
+            let theta = Algebraic::new(poly);
+            let o = find_integral_basis(&theta);
+            let (roots_re, roots_im) = find_roots_reim(poly_complex);
+            let emb = CEmbeddings::new(&roots_re, &roots_im, &o);
+            let r = roots_re.len();
+            let s = roots_im.len();
+            let _ = verif_hooks::take_log();
+            tl(vec![ti(find_muk(&emb) as u64), ti(r as u64), ti(s as u64)])
+        }
+        _ => return None,
+    })
 }
